@@ -39,13 +39,25 @@ structure Variants where
   /-- DESIGN §4 #8 (owned by C09, fixes/C09-handler-status.patch): proxy / provider handlers answer a
       routing rejection with the decision's 404 / 503 instead of 502 / 404. -/
   handlerStatus : Variant
+  /-- (new) TransformStreamingResponse on a backend 200 whose body is not a completion stream at all
+      (no chunk parses, no [DONE]: a JSON object, a truncated document, an HTML page): pinned = it still
+      writes message_start … end_turn … message_stop, an EMPTY message with status 200; fixed
+      (fixes/C05-stream-not-a-completion.patch) = it returns an error before anything is written and
+      the handler answers with a 502 Anthropic error object. -/
+  emptyStream : Variant := .fixed
+  /-- (new) the proxy goroutine closed the pipe cleanly even when the proxy call had failed, so a backend
+      stream that broke off after it had begun was finished by the translator as a complete message
+      (message_delta end_turn, message_stop): pinned. Fixed (fixes/C19-broken-stream-not-finished.patch):
+      the pipe is closed with the error, the translator stops, tells the client with an `error` event if
+      the event stream had begun, and otherwise lets the handler answer 502. -/
+  brokenStream : Variant := .fixed
 deriving DecidableEq, Repr
 
 /-- THE switch: flip a field to `.fixed` when the corresponding fix patch is applied to the tree. -/
-def active : Variants := { streamHandoff := .fixed, errorStatus := .fixed, handlerStatus := .fixed }
+def active : Variants := { streamHandoff := .fixed, errorStatus := .fixed, handlerStatus := .fixed, emptyStream := .fixed, brokenStream := .fixed }
 
-def allFixed : Variants := { streamHandoff := .fixed, errorStatus := .fixed, handlerStatus := .fixed }
-def allPinned : Variants := { streamHandoff := .pinned, errorStatus := .pinned, handlerStatus := .pinned }
+def allFixed : Variants := { streamHandoff := .fixed, errorStatus := .fixed, handlerStatus := .fixed, emptyStream := .fixed, brokenStream := .fixed }
+def allPinned : Variants := { streamHandoff := .pinned, errorStatus := .pinned, handlerStatus := .pinned, emptyStream := .pinned, brokenStream := .pinned }
 
 inductive Route | proxy | provider | anthropic
 deriving DecidableEq, Repr, Inhabited
@@ -181,10 +193,14 @@ def pipeBytes : List PEv → List UInt8
   | .write b :: rest => b ++ pipeBytes rest
   | _ :: rest => pipeBytes rest
 
-/-- `Translator.TransformStreamingResponse` on the pipe's content: always
-    `200 text/event-stream`, message_start … message_delta … message_stop — also on an empty pipe. -/
-def transformStream (kind : List UInt8 → BodyKind) (pipe : List UInt8) : Seen :=
-  ⟨200, .eventStream, .sse (!pipe.isEmpty && kind pipe == .completion)⟩
+/-- `Translator.TransformStreamingResponse` on the pipe's content: `200 text/event-stream`,
+    message_start … message_delta … message_stop. Pinned: also on an empty pipe and on bytes that are
+    no completion stream; fixed: those are refused before anything is written (502 Anthropic error). -/
+def transformStream (vs : Variants) (kind : List UInt8 → BodyKind) (pipe : List UInt8) : Seen :=
+  let hasContent := !pipe.isEmpty && kind pipe == .completion
+  match vs.emptyStream with
+  | .pinned => ⟨200, .eventStream, .sse hasContent⟩
+  | .fixed => if hasContent then ⟨200, .eventStream, .sse true⟩ else anthropicError 502
 
 /-- The handler goroutine after it observed `r`. A proxy error that arrives once the event stream has
     begun is dropped by executeTranslationRequest (Content-Type already set). -/
@@ -193,7 +209,7 @@ def streamMain (vs : Variants) (kind : List UInt8 → BodyKind) (r : Rec) (pipe 
   | .fixed, false => anthropicError 502                  -- the proxy ended without an answer: its error is returned
   | _, _ =>
     if 400 ≤ r.status then anthropicError r.status       -- handleStreamingBackendError: WriteError(w, msg, status)
-    else transformStream kind pipe
+    else transformStream vs kind pipe
 
 def translateStream (vs : Variants) (kind : List UInt8 → BodyKind) (tr : List Ev) (k : Nat) : Seen :=
   let evs := proxyEvents tr
@@ -201,6 +217,17 @@ def translateStream (vs : Variants) (kind : List UInt8 → BodyKind) (tr : List 
   | some r => streamMain vs kind r (pipeBytes evs)
   | none =>                                              -- the schedule point is before headersReady: the handler is still waiting; it wakes up at the latest when the proxy finishes
     streamMain vs kind (Rec.run evs) (pipeBytes evs)
+
+/-- The proxy call failed although the event stream had been handed over (`err`): what the client
+    ends up with, given what the translation of the pipe alone would have produced (`base`). -/
+def brokenStreamAnswer (vs : Variants) (err : Bool) (base : Seen) : Seen :=
+  match vs.brokenStream with
+  | .pinned => base                                     -- the error is dropped, the stream is finished off
+  | .fixed =>
+    if err && base.status == 200 && base.ctype == .eventStream then
+      (if base.body == .sse true then ⟨200, .eventStream, .sseBroken⟩   -- message_start … deltas … `error`
+       else anthropicError 502)                                          -- nothing had been written yet
+    else base
 
 /-! ### The handlers -/
 
@@ -239,7 +266,8 @@ def afterProxy (vs : Variants) (rq : Req) (kind : List UInt8 → BodyKind) (k : 
     match rq.mode with
     | .passthrough _ => direct (anthropicError 502) (viewOf out)
     | .translate =>
-      if rq.stream then translateStream vs kind out.1 k else translateBuffered vs kind (viewOf out)
+      if rq.stream then brokenStreamAnswer vs (viewOf out).err (translateStream vs kind out.1 k)
+      else translateBuffered vs kind (viewOf out)
 
 /-- One request through a handler. `exec` is `ProxyRequestToEndpoints` on the given endpoint list. -/
 def handle (vs : Variants) (rq : Req) (kind : List UInt8 → BodyKind) (k : Nat)
